@@ -1040,10 +1040,11 @@ func (self *LockManager) ProcessLockData(command *protocol.LockCommand, lock *Lo
 	case protocol.LOCK_DATA_COMMAND_TYPE_SHIFT:
 		lengthValue := int(lockCommandData.GetShiftLengthValue())
 		if self.currentData != nil && self.currentData.GetData() != nil && lengthValue > 0 {
-			if lengthValue > len(currentLockData.data) {
-				lengthValue = len(currentLockData.data)
+			valueOffset := currentLockData.GetValueOffset()
+			if lengthValue > len(currentLockData.data)-valueOffset {
+				lengthValue = len(currentLockData.data) - valueOffset
 			}
-			dataLen, valueOffset := len(currentLockData.data)-lengthValue-4, currentLockData.GetValueOffset()
+			dataLen := len(currentLockData.data) - lengthValue - 4
 			data := make([]byte, dataLen+4)
 			data[0], data[1], data[2], data[3] = byte(dataLen), byte(dataLen>>8), byte(dataLen>>16), byte(dataLen>>24)
 			data[4], data[5] = protocol.LOCK_DATA_COMMAND_TYPE_SET, currentLockData.data[5]
